@@ -37,6 +37,20 @@ Theorem remove_pos_refines : forall mai t n pos,
 Proof. exact remove_pos_refines_lemma. Qed.
 Print Assumptions remove_pos_refines.
 
+(* direct assignments that keep the table a list *)
+Theorem assign_refines : forall mai t n i v,
+  bounded mai t -> is_list (RawGet mai t) n ->
+  let t' := RawSet mai t (KInt i) v in
+  bounded mai t' /\
+  (i = n + 1 -> v <> VNil ->
+     is_list (RawGet mai t') (n + 1) /\ view (RawGet mai t') (n + 1) = view (RawGet mai t) n ++ [v]) /\
+  (1 <= i <= n -> v <> VNil ->
+     is_list (RawGet mai t') n /\ view (RawGet mai t') n = upd (view (RawGet mai t) n) (Z.to_nat (i - 1)) v) /\
+  (i = n -> 1 <= n -> v = VNil ->
+     is_list (RawGet mai t') (n - 1) /\ view (RawGet mai t') (n - 1) = firstn (Z.to_nat (n - 1)) (view (RawGet mai t) n)).
+Proof. exact assign_refines_lemma. Qed.
+Print Assumptions assign_refines.
+
 (* table.remove(t) is table.remove(t, #t) (was refuted before fix 5ada882: C18-1) *)
 Theorem remove_default_refines : forall mai t n,
   bounded mai t -> len (arr t) + 1 < mai -> is_list (RawGet mai t) n ->
